@@ -177,6 +177,9 @@ def run(report, p):
     loader = p.funcs.get(f"{hist}.load_from_path")
     g = cfg_of(loader)
     sorts = [n for n in walk_no_nested(loader.node) if isinstance(n, ast.Call) and isinstance(n.func, ast.Attribute) and n.func.attr == "sort"]
+    # sorts of other collections (e.g. the directory names of a walk, when the child discovery is inlined into the loader) are not the generation sort
+    _apps_iters = {norm(parent(parent(c)).iter) for c, tg in p.calls[loader.qual] if any(t.endswith("append_hash_list") for t in tg) and isinstance(parent(parent(c)), ast.For)}
+    sorts = [n for n in sorts if any(k.arg == "key" for k in n.keywords) or norm(n.func.value) in _apps_iters]
     apps = [c for c, tg in p.calls[loader.qual] if any(t.endswith("append_hash_list") for t in tg)]
     r3.instance(loader, sorts[0] if sorts else loader.node, "loader sort")
     sorts_all = sorts
@@ -381,6 +384,8 @@ def run(report, p):
     r5.check(okr, val, req[0] if req else val.node, "the validator does not demand the format of the file's 'original' entry", construct="required format selector")
     wr = [c for c, tg in p.calls[f"{hist}.write_new_generation"] if any(t.endswith("write_hash_list") for t in tg)]
     vc = [c for c, tg in p.calls[f"{hist}.write_new_generation"] if val.qual in tg]
+    if not vc and val.qual == f"{hist}.write_new_generation":
+        raise AnalysisError("the validation of new hash lists sits in write_new_generation itself (helper inlined): its position before the writer is not judged on this shape")
     r5.check(bool(wr) and bool(vc) and all(gw.dominates(gw.node_for(vc[0]), gw.node_for(w)) for w in wr), wng, wr[0] if wr else wng.node, "the manifest writer is not dominated by the validator", construct="validate before write")
 
     # ------------------------------------------------------------------ R4.6
